@@ -143,6 +143,10 @@ def _decide(agent, markets):
                 p = g.const(m.get_market_price() + (-menu["price_rel"] if is_buy else menu["price_rel"]))
             elif "price_fixed" in menu:
                 p = menu["price_fixed"]
+            elif "price_set" in menu:
+                # plain python numbers (no proxies anywhere in the run): code that converts or type-checks its
+                # numbers stays decidable; the solver picks which one
+                p = menu["price_set"][g.choice(f"{tag}_pc", len(menu["price_set"]))]
             else:
                 p = g.int(f"{tag}_p", menu.get("price_lo", 1), menu.get("price_hi", PRICE_HI))
             if menu.get("real_prices"):
